@@ -16,7 +16,7 @@
    (state_machine.py; C08): each step below does both.
 
    Definitions only. *)
-From Coq Require Import ZArith QArith List Bool.
+From Coq Require Import ZArith QArith Qround List Bool.
 From Pandora Require Import Lib.Ext Spec.Local.
 From Pandora Require Model.MatchingCost Model.Criteria Model.Wta Model.Refine Model.Filters Model.CrossCheck.
 Import ListNotations.
@@ -184,12 +184,13 @@ Inductive step : Type :=
 | SWta (mx : bool) (invalid : option Q)
 | SRefine (me : Refine.method) (m : Refine.measure)
 | SMedian (w : Z)
+| SBilateral (sigma_space : Q) (sk : Z -> Z -> Q) (rk : Q -> Q)   (* the two Gaussian kernels are data *)
 | SXcheck (thr : Q).
 
 (* what the steps share: the regenerated constants / flag sites, block sizes, the configuration *)
 Record env : Type := mkEnvL {
   e_flags : Criteria.env; e_refine : Refine.consts; e_inv : Z;
-  e_bwta : Z; e_bmed : Z; e_cfg : cfg }.
+  e_bwta : Z; e_bmed : Z; e_bbil : Z; e_cfg : cfg }.
 
 Definition step_op (V : env) (s : step) : op pix pix :=
   match s with
@@ -197,8 +198,12 @@ Definition step_op (V : env) (s : step) : op pix pix :=
   | SWta mx invalid => wta_step mx (e_bwta V) invalid (e_cfg V)
   | SRefine me m => refine_step (e_refine V) me m (e_cfg V)
   | SMedian w => median_step (e_inv V) (e_bmed V) w
+  | SBilateral sigma sk rk => bilateral_step (e_inv V) (e_bbil V) sigma sk rk
   | SXcheck thr => xcheck_step thr (e_cfg V)
   end.
+
+(* window of the bilateral filter: int(3 * sigma_space + 1) *)
+Definition bil_win (sigma_space : Q) : Z := Qfloor (3 * sigma_space + 1).
 
 (* data cone and margin of each step *)
 Definition step_D (G : cfg) (s : step) : radii :=
@@ -206,6 +211,7 @@ Definition step_D (G : cfg) (s : step) : radii :=
   | SMc _ => rad_mc G
   | SWta _ _ | SRefine _ _ => rad0
   | SMedian w => rad_filter w
+  | SBilateral sigma _ _ => rad_filter (bil_win sigma)
   | SXcheck _ => rad_xcheck G
   end.
 Definition step_M (G : cfg) (s : step) : radii :=
@@ -234,7 +240,7 @@ Fixpoint pipe_side (V : env) (steps : list step) : side pix :=
 
 (* ------------------------------------------------------------------ radii of every local step kind,
    including those whose locality is not proved at model level (census, zncc: proved on the spec;
-   cbca, bilateral: compared by the metamorphic runs only): what the harness uses *)
+   cbca: compared by the metamorphic runs only): what the harness uses *)
 Inductive kstep : Type :=
 | KMc            (* any measure: window + disparity span *)
 | KCbca (dist : Z)     (* arms (at most cbca_distance) on the 3x3-median-filtered images *)
@@ -243,7 +249,8 @@ Inductive kstep : Type :=
 | KXcheck.
 Definition forget (s : step) : kstep :=
   match s with
-  | SMc _ => KMc | SWta _ _ | SRefine _ _ => KPoint | SMedian w => KFilter w | SXcheck _ => KXcheck
+  | SMc _ => KMc | SWta _ _ | SRefine _ _ => KPoint | SMedian w => KFilter w
+  | SBilateral sigma _ _ => KFilter (bil_win sigma) | SXcheck _ => KXcheck
   end.
 Definition kstep_D (G : cfg) (k : kstep) : radii :=
   match k with
